@@ -1,7 +1,7 @@
 #!/usr/bin/env python3
 """Copies validated seeded changes from /tmp/seed-out into /verif/seeded/<id>-<n>/ (patch.diff, demo_test.go, meta.json)."""
 import json, os, shutil, glob, sys
-for vf in sorted(glob.glob('/tmp/seed-out/C*/*/validation.json')):
+for vf in sorted(glob.glob(os.environ.get('SEED_OUT','/tmp/seed-out')+'/C*/*/validation.json')):
     d = os.path.dirname(vf)
     v = json.load(open(vf))
     ok = v['applies'] == 'yes' and v['builds'] == 'yes' and v['suite_with_change'] == 'pass' and v['demo_with_change'] == 'fail' and v['demo_without_change'] == 'pass'
